@@ -27,10 +27,23 @@ def main():
     ctx.gen = json.loads(genfiles)
     ctx.quick = tier == 'quick'
     import drivers
-    drivers.DRIVERS[prop](ctx)
+    aborted = False
+    try:
+        drivers.DRIVERS[prop](ctx)
+    except Exception as e:  # noqa
+        from abstraction import a_exc
+        import traceback
+        info = a_exc(e)
+        if not info['site']:
+            raise            # nothing of pamqp in the traceback: the harness itself is at fault (exit 2)
+        # the library refused a call this driver makes on every run: a verdict for TLC, not a crash
+        where = [f for f in traceback.extract_tb(e.__traceback__) if '/harness/' in f.filename]
+        ctx.rec.add('DriverAbort', [prop], nt=True, out=info, sigx='%s@%s' % (info['type'], info['site']),
+                    where='%s:%s' % (where[-1].name, where[-1].lineno) if where else '?', msg=str(e)[:300])
+        aborted = True
     # history insensitivity of the property's OWN calls: a sample of the stateless events of this trace is executed
     # again after a storm of unrelated calls (failures included) in the same interpreter and judged again
-    if prop not in ('C14', 'C17'):
+    if prop not in ('C14', 'C17') and not aborted:
         import rerun
         cand = [e for e in ctx.rec.events if e['a'] in rerun.STATELESS and len(json.dumps(e)) < 60000]
         ctx.rng.shuffle(cand)
